@@ -23,12 +23,12 @@ def real_name(n):
     return REAL.get(n, n)
 
 FILES = ["a.txt", "..name", "x.html", "x", "y.html", "index.html", "u_e.txt", "sub/index.html", "sub/a.txt", "sub/x.html",
-         "sub/deep/a.txt", "sub/..name", "root/a.txt"]
+         "sub/deep/a.txt", "sub/..name", "root/a.txt", "sub.html"]
 DIRS = ["sub", "sub/deep", "root"]
 
 
 def world():
-    w = {(("secret.txt",), "file"), (("rootx",), "dir"), (("rootx", "secret.txt"), "file"), (("rootx", "a.txt"), "file"),
+    w = {(("secret.txt",), "file"), (("root.html",), "file"), (("rootx",), "dir"), (("rootx", "secret.txt"), "file"), (("rootx", "a.txt"), "file"),
          (("root",), "dir")}
     for f in FILES:
         w.add((("root",) + tuple(f.split("/")), "file"))
@@ -59,7 +59,7 @@ def build(base, w):
         else:
             os.makedirs(os.path.dirname(path), exist_ok=True)
             with open(path, "wb") as f:
-                f.write(content_of(p) if "secret" not in p[-1] else b"SECRET " + content_of(p))
+                f.write(content_of(p) if ("secret" not in p[-1] and p != ("root.html",)) else b"SECRET " + content_of(p))
     return top
 
 
